@@ -347,6 +347,45 @@ pub fn c23_text(text: &str) -> Found {
     c23_text2(text).0
 }
 
+/// The same judgement with the parse done in a worker process (each process has its own stderr lock: the
+/// parser prints its diagnostics there, which serializes threads of one process).
+pub fn c23_text_w(w: &mut crate::worker::Worker, text: &str) -> (Found, bool) {
+    use crate::worker::Answer;
+    let mut out: Found = vec![];
+    match w.ask(&json!({"op": "parse", "text": text})) {
+        Answer::Panic(p) => {
+            out.push(("C23/parser-panics".into(), format!("{text:?}: {p}")));
+            (out, false)
+        }
+        Answer::Died(d) => {
+            out.push(("C23/parser-kills-the-process".into(), format!("{text:?}: {d}")));
+            (out, false)
+        }
+        Answer::Ok(o) => {
+            let parsed = o["parsed"].as_bool() == Some(true);
+            if parsed {
+                let n = o["error_nodes"].as_u64().unwrap_or(0);
+                if n > 0 {
+                    out.push(("C23/accepted-tree-contains-error-nodes".into(), format!("{text:?}: {n} error nodes")));
+                }
+                out.extend(scope_verdict(text));
+            }
+            (out, parsed)
+        }
+    }
+}
+
+fn scope_verdict(text: &str) -> Found {
+    let mut out: Found = vec![];
+    if let Err(why) = scope_check(text) {
+        if why != "unreadable" && why != "malformed" {
+            let class: String = if why.contains("next") { "next-outside-its-fold".into() } else if why.contains("neither") { classify_scope(text) } else { "other".into() };
+            out.push((format!("C23/accepted-script-is-not-well-scoped/{class}"), format!("{text}: {why}")));
+        }
+    }
+    out
+}
+
 /// (violations, did the parser accept the text)
 pub fn c23_text2(text: &str) -> (Found, bool) {
     let mut out: Found = vec![];
@@ -631,7 +670,7 @@ pub fn check_c23(tier: Tier) -> Report {
         // length 4, length 5 only if they start with "( <instruction keyword>"
         let kw_start = |t: &str| ["call", "seq", "par", "xor", "fold", "next", "new", "ap", "canon", "match", "mismatch", "fail", "null", "never"].iter().any(|k| t.starts_with(&format!("( {k} ")));
         let all: Vec<String> = token_strings(len).filter(|t| if tier == Tier::Thorough { len <= 4 || kw_start(t) } else { len <= 3 || t.starts_with('(') }).collect();
-        let res = par_map(&all, |t| c23_text2(t));
+        let (res, _) = crate::c01::par_workers(&all, |w, t| c23_text_w(w, t));
         for (t, (f, ok)) in all.iter().zip(res) {
             evals += 1;
             if ok {
@@ -658,8 +697,8 @@ pub fn check_c23(tier: Tier) -> Report {
             texts.push((format!("{name}#{m}"), mt));
         }
     }
-    let res = par_map(&texts, |(_, t)| {
-        let (f, parsed) = c23_text2(t);
+    let (res, _) = crate::c01::par_workers(&texts, |w, (_, t)| {
+        let (f, parsed) = c23_text_w(w, t);
         let scoped = scope_check(t).is_ok();
         (f, parsed, scoped)
     });
@@ -816,6 +855,19 @@ pub fn c28_case(text: &str, step: usize) -> Found {
     out
 }
 
+fn has_fold_with_last(text: &str) -> bool {
+    fn go(s: &Sx) -> bool {
+        if let Sx::List(items, _) = s {
+            if items.first().and_then(atom) == Some("fold") && items.len() == 5 {
+                return true;
+            }
+            return items.iter().any(go);
+        }
+        false
+    }
+    read_script(text).map(|s| go(&s)).unwrap_or(false)
+}
+
 pub fn check_c28(tier: Tier) -> Report {
     let mut rep = e2_report(
         "C28",
@@ -824,7 +876,22 @@ pub fn check_c28(tier: Tier) -> Report {
             "patterns (hopon) off",
         ],
     );
-    let bases = base_scripts(tier);
+    let mut bases = base_scripts(tier);
+    // every script with a fold that has a last instruction, again at nesting depth >= 1 (inside new / try / par /
+    // match blocks): a block-local indentation slip shows only there
+    let wrapped: Vec<(String, String)> = bases
+        .iter()
+        .filter(|(_, t)| has_fold_with_last(t))
+        .flat_map(|(n, t)| {
+            vec![
+                (format!("{n}#in-new"), format!("(new $wrapz {t})")),
+                (format!("{n}#in-try"), format!("(xor {t} (null))")),
+                (format!("{n}#in-par-in-match"), format!("(match 1 1 (par (null) {t}))")),
+            ]
+        })
+        .filter(|(_, t)| air_parser::parse(t).is_ok())
+        .collect();
+    bases.extend(wrapped);
     let steps: Vec<usize> = vec![1, 2, 4, 7];
     let mut cases: Vec<(String, String, usize)> = vec![];
     for (i, (name, t)) in bases.iter().enumerate() {
